@@ -875,7 +875,7 @@ def _safe_executable(tree, path):
     try:
         if tree.kind(path) != "file":
             return False
-    except _mod_transport.NoSuchFile:
+    except NoSuchFile:
         return None
     return tree.is_executable(path)
 
@@ -1125,6 +1125,13 @@ class Merge3Merger:
                     this_name = this_entry.name
                     this_parent = this_entry.parent_id
                     this_executable = this_entry.executable
+                    if this_entry.kind == "file":
+                        # The inventory entry of a working tree carries the
+                        # executable flag recorded at the last commit; a
+                        # pending chmod is only visible through the tree.
+                        tree_executable = _safe_executable(self.this_tree, this_path)
+                        if tree_executable is not None:
+                            this_executable = tree_executable
                 else:
                     this_name = None
                     this_parent = None
